@@ -18,6 +18,15 @@ CHECKS = {
  "C05": dict(tech="per emitted program: explicit-state exploration of the abstract machine (pc, type stack, frame) to a fixpoint; plus dynamic type/underflow fault check on the input alphabet",
              text="For every emitted program of the recipe populations and configurations, all reachable abstract states of every routine are explored (one height per pc, no pop below the routine's floor, no definitely wrong operand type, consistent retsub heights, frame accesses inside the frame); programs without anytype expressions are also executed and must not fault with a type or underflow error.",
              note="opcode stack signatures from vf/avm/spec.py; callsub summaries inferred; slot contents are untyped (load yields unknown)", ref="2/C05"),
+ "C03": dict(tech="exhaustive enumeration of recipes (control flow, call graphs, all store/load sequences over the optimiser alphabet) x all option/version settings; differential execution on the reference AVM against a pivot configuration",
+             text="Every recipe is compiled under every option setting and version at which it compiles; all results run on every input and must agree with the pivot in verdict, value, effects and user-numbered scratch slots; pairs differing only in the slot optimisation must also agree on the stack portion a routine owns whenever control leaves it.",
+             note="reference AVM; spilled caller slots are excluded from the stack comparison (implementation detail of the calling convention)", ref="2/C03"),
+ "C17": dict(tech="exhaustive enumeration of store/load placements over control-flow shapes; oracle = explicit-state reachability over (position, stored-set) on the recipe's syntactic CFG",
+             text="All placements of stores and loads of two routine-local variables over all control-flow shapes up to the node bound, in main and in a subroutine, automatic and requested slots: whenever the independent path search finds a load reachable without a store, compilation must fail with PyTeal's uninitialised-slot error naming a load of such a variable.",
+             note="one direction only (the statement's): acceptance of initialised programs is C20's business; syntactic paths", ref="2/C17"),
+ "C18": dict(tech="exhaustive enumeration of insertion points x annotation kinds x all texts up to a length bound; normalised instruction streams compared via the independent TEAL grammar",
+             text="Every insertion point of every base program x Comment / Assert comment / Pragma / Nonce / subroutine name x every text of length <= L over an adversarial alphabet (quotes, //, ;, backslash, line breaks, U+2028, colon) plus a list of nasty texts: comment lines dropped, labels alpha-renamed, the Nonce byte/pop pair removed, the instruction streams must be identical and the annotated text must still assemble.",
+             note="line structure as the go-algorand assembler sees it (only \\n ends a line)", ref="2/C18"),
 }
 NOT_YET = {}
 props = [json.loads(l) for l in open(os.path.join(HERE, "properties.jsonl"))]
